@@ -2,8 +2,8 @@
 
 The real `enspara.mpi.ops` / `enspara.mpi.io` functions and the real distributed
 k-centers / k-medoids / hybrid code run on thread-simulated ranks (harness/mpi_stub); the
-serial run on the concatenated data is the oracle; the Lean model (Model/Mpi.lean) is
-compared with both.
+serial run on the concatenated data is the oracle; the Lean models (Model/Mpi.lean,
+Model/MpiPam.lean for the distributed PAM sweep) are compared with both.
 """
 import os
 import shutil
@@ -22,7 +22,13 @@ RULE = ('world sizes 1..8; trajectory length vectors with 1..6 frames per trajec
         'radius cutoff; a random sleep before every collective varies the arrival order of ranks; '
         'ops/io functions get packed and non-packed layouts, empty local arrays, error inputs; '
         'randind is enumerated over every value of the RNG draw; .h5/.npy fixtures are written to a '
-        'temp dir. A case is non-trivial when more than one rank holds data (w >= 2) and the '
+        'temp dir. pam-model cases: distributed _kmedoids_pam_update / kmedoids (warm start, centers as '
+        '(trajectory, frame) pairs or flat ids) for 1-2 sweeps from a k-centers state or from arbitrary labels / '
+        'distances, with explicit (rank, index) proposals (cluster members or any frame), randind proposals '
+        '(draws recorded) or invalid proposals (owner >= w, index past the owner\'s frames, wrong length), compared '
+        'exactly with Model/MpiPam.lean per rank and per sweep (labels, distances, medoid pairs, broadcast medoid '
+        'frames, accept flags, global costs) and with the serial sweep on the concatenated data. '
+        'A case is non-trivial when more than one rank holds data (w >= 2) and the '
         'call succeeds; distinct by canonical input')
 ASSUMPTIONS = [
     'the mpi4py stand-in (harness/mpi_stub) is NOT an MPI library: ranks are threads of one process, '
@@ -34,9 +40,11 @@ ASSUMPTIONS = [
     'every rank owns >= 1 trajectory (the code raises otherwise; checked as an error case)',
     'distance tables hold small integers, so float64 sums of squares are exact and the PAM cost '
     'comparison is rounding-free',
-    'the distributed PAM sweep itself is not modelled in Lean (only its collectives: cost = striped mean, '
-    'proposal = randind, medoid frames = distribute_frame); it is checked on the implementation by the '
-    'Consistent invariants, cost monotonicity and exact equality with serial PAM under identical proposals',
+    'distributed PAM (Model/MpiPam.lean): medoid_inds, medoid_coords, both costs and the accept decision are '
+    'single values of the model because they come out of collectives (same value on every rank by the MPI '
+    'contract); that the real ranks agree is checked here rank by rank. Frames are identified with their '
+    'global frame id (the data array holds the id, the metric is a table on ids). Random proposals: the '
+    'integers rank 0 draws in randind (recorded through a RandomState subclass) are the model\'s oracle',
     'for inputs outside the property (wrong local array length) only the coarse outcome (length error vs '
     'success) of assemble_striped_ragged_array is compared with the model',
 ]
@@ -542,6 +550,310 @@ def prep_pam(ctx, case):
         if exp[0] != c0:
             ctx.tag('pam-accepted-a-proposal')
     return [], finish
+
+
+# ----------------------------------------------------------------------------- distributed PAM vs Model/MpiPam
+
+def gen_pam_model(rng):
+    """distributed PAM compared exactly with Model/MpiPam.lean (per-rank labels, distances, medoid pairs,
+    broadcast medoid frames, accept flags, costs) and with the serial sweep on the concatenated data"""
+    w = int(rng.integers(1, 9))
+    L, mode = gen_lengths(rng, w, extra_max=4, lmax=5)
+    N = sum(L)
+    k = int(rng.integers(1, min(N, 6) + 1))
+    u = rng.random()
+    props = 'member' if u < 0.45 else ('any' if u < 0.7 else ('random' if u < 0.88 else
+                                       str(rng.choice(['bad-owner', 'bad-index', 'bad-length']))))
+    return {'kind': 'pam-model', 'w': w, 'L': L, 'dseed': int(rng.integers(0, 2 ** 31)), 'k': k,
+            'iters': int(rng.integers(1, 3)), 'pseed': int(rng.integers(0, 2 ** 31)),
+            'form': 'pairs' if rng.random() < 0.6 else 'flat',
+            'start': 'kcenters' if rng.random() < 0.7 else 'arbitrary',
+            'props': props, 'jit': int(rng.integers(0, 2 ** 31)), 'mode': mode}
+
+
+def _recording_random_state(seed):
+    class Rec(np.random.RandomState):
+        """records every randint draw (rank 0's draws are the model's oracle)"""
+        def randint(self, *a, **kw):
+            v = super().randint(*a, **kw)
+            self.draws.append(int(v))
+            return v
+    rs = Rec(seed)
+    rs.draws = []
+    return rs
+
+
+def prep_pam_model(ctx, case):
+    quiet()
+    from enspara.cluster import kmedoids
+    from enspara import mpi
+    w, L, k, iters = case['w'], case['L'], case['k'], case['iters']
+    N = sum(L)
+    D = table(N, case['dseed'])
+    metric = make_metric(D)
+    X = np.arange(N, dtype=float).reshape(-1, 1)
+    Larr = np.array(L, dtype=int)
+    g = np.random.default_rng(case['pseed'])
+    if case['start'] == 'kcenters':
+        start = real_kcenters_serial(N, metric, k, 0)
+        c0 = to_int_list(start.center_indices)
+        a0, d0 = np.array(start.assignments), np.array(start.distances)
+    else:
+        # any labels / distances (the refinement needs no consistency); centers at distance 0 so that the
+        # warm-start assert of kmedoids() passes
+        c0 = to_int_list(g.choice(N, size=k, replace=False))
+        a0 = g.integers(0, k, size=N)
+        d0 = g.integers(0, max(2, N * (N - 1) // 2), size=N).astype(float)
+        d0[c0] = 0.0
+    k = len(c0)
+    ids = [local_ids(w, L, r) for r in range(w)]
+    off = offsets(L)
+    traj_of = lambda gl: int(np.searchsorted(off, gl, side='right') - 1)
+    tf_pairs = [[traj_of(gl), int(gl - off[traj_of(gl)])] for gl in c0]
+    ctrs0 = [list(global_to_local(w, L, gl)) for gl in c0]
+    pm = case['props']
+    gprops, lprops = None, None
+    if pm != 'random':
+        gprops = []
+        for j in range(k):
+            pool = np.where(a0 == j)[0] if pm == 'member' and np.any(a0 == j) else np.arange(N)
+            gprops.append(int(g.choice(pool)))
+        lprops = [list(global_to_local(w, L, p)) for p in gprops]
+        j = int(g.integers(0, k))
+        if pm == 'bad-owner':
+            lprops[j] = [w + int(g.integers(0, 2)), 0]
+        elif pm == 'bad-index':
+            lprops[j] = [lprops[j][0], len(ids[lprops[j][0]]) + int(g.integers(0, 2))]
+        elif pm == 'bad-length':
+            lprops = lprops + [lprops[0]] if g.random() < 0.5 or k == 1 else lprops[:-1]
+    valid = pm in ('member', 'any', 'random')
+    drawlog = {}
+
+    def fn(r):
+        loc = X[ids[r]].copy()
+        cci = [list(p) for p in tf_pairs] if case['form'] == 'pairs' else list(c0)
+        # the conversion kmedoids() itself applies to the warm-start centers
+        inds = [(int(a), int(b)) for a, b in kmedoids.ctr_ids_mpi(cci, list(L))]
+        a, d = a0[ids[r]].copy(), d0[ids[r]].copy()
+        rs = _recording_random_state(case['pseed'] % (2 ** 31)) if pm == 'random' else None
+        if rs is not None:
+            drawlog[r] = rs.draws          # kept even when the call raises (an empty cluster has no member)
+        sweeps, costs = [], []
+
+        def cost(x):
+            c = kmedoids._msq(x)
+            costs.append(float(c))
+            return c
+        for it in range(iters):
+            inds, d, a, coords = kmedoids._kmedoids_pam_update(
+                loc, metric, inds, a, d, proposals=(None if lprops is None else [tuple(p) for p in lprops]),
+                cost=cost, random_state=rs)
+            sweeps.append({'ctrs': [[int(x), int(y)] for x, y in inds], 'dist': [float(x) for x in d],
+                           'assign': to_int_list(a), 'adtype': str(np.asarray(a).dtype),
+                           'coords': [float(np.asarray(c).ravel()[0]) for c in coords]})
+        full = None
+        if w >= 2 and pm != 'random':
+            res = kmedoids.kmedoids(loc.copy(), metric, n_iters=iters, assignments=a0[ids[r]].copy(),
+                                    distances=d0[ids[r]].copy(), cluster_center_inds=cci, X_lengths=list(L),
+                                    proposals=[tuple(p) for p in lprops])
+            full = {'ctrs': [[int(x), int(y)] for x, y in res.center_indices],
+                    'dist': [float(x) for x in res.distances], 'assign': to_int_list(res.assignments),
+                    'coords': [float(np.asarray(c).ravel()[0]) for c in res.centers],
+                    'rd': [float(x) for x in mpi.ops.assemble_striped_ragged_array(res.distances, Larr)],
+                    'ra': to_int_list(mpi.ops.assemble_striped_ragged_array(res.assignments, Larr)),
+                    'rc': to_int_list(mpi.ops.convert_local_indices(res.center_indices, Larr))}
+        return {'sweeps': sweeps, 'costs': costs, 'draws': (rs.draws if rs is not None else None), 'full': full}
+
+    out = run_ranks(w, fn, jit_seed=case['jit'])
+    base = {'op': 'C14.mpi_pam', 'w': w, 'L': L, 'D': [[int(x) for x in row] for row in D],
+            'arrs': [{'dist': [rat(x) for x in d0[ids[r]]], 'assign': to_int_list(a0[ids[r]])} for r in range(w)],
+            'iters': iters, 'props': lprops}
+    if pm == 'random':
+        base['orc'] = list(drawlog.get(0, []))
+    reqs = [dict(base, entry='iterations', ctrs=ctrs0),
+            dict(base, entry='kmedoids', **({'centers': tf_pairs} if case['form'] == 'pairs' else {'centers_flat': c0}))]
+
+    def finish(resps):
+        mi, mk = resps
+        tags = ['pam-model', 'w=%d' % w, 'start:' + case['start'], 'proposals:' + pm,
+                'center-form:' + case['form'], 'pam-sweeps=%d' % iters]
+        ctx.case(case, nontrivial=(out.ok and w >= 2), tags=tags)
+        if not valid:
+            # error inputs: the call must fail on the real ranks and the model must name an observed kind
+            if out.ok:
+                ctx.disagreement('_kmedoids_pam_update accepted invalid proposals (%s)' % pm, case)
+            elif out.deadlock:
+                ctx.violation('_kmedoids_pam_update with invalid proposals left ranks waiting (deadlock)', case)
+            elif not model_matches(mi, out):
+                ctx.disagreement('Model.MpiPam vs _kmedoids_pam_update on invalid proposals: %s vs %s'
+                                 % (mi, out.describe()), case)
+            else:
+                ctx.tag('pam-model-error:' + mi.get('error', '?'))
+            return
+        if not out.ok and pm == 'random' and out.kinds == ['data-invalid'] and raised_in(out, 'randind') \
+                and case['start'] == 'arbitrary':
+            # arbitrary labels: a cluster without members (from the start, or emptied by an accepted step) --
+            # randind has nothing to choose from, on every rank; from a consistent start this cannot happen
+            if out.deadlock or not model_matches(mi, out):
+                ctx.disagreement('Model.MpiPam vs randind on an empty cluster: %s vs %s' % (mi, out.describe()), case)
+            else:
+                ctx.tag('pam-model-empty-cluster-rejected')
+            return
+        if not out.ok:
+            ctx.violation('distributed _kmedoids_pam_update / kmedoids (warm start) failed on %d ranks: %s'
+                          % (w, out.describe()), case, key=equal_rows_key(w, L, out))
+            return
+        frac = lambda q: Fraction(q[0], q[1])
+        R0 = out.results[0]
+
+        # --- (P1) every rank holds the same medoid pairs / medoid frames and took the same decisions
+        flags = lambda res: [res['costs'][2 * j + 1] < res['costs'][2 * j] for j in range(len(res['costs']) // 2)]
+        for r, res in enumerate(out.results):
+            if [sw['ctrs'] for sw in res['sweeps']] != [sw['ctrs'] for sw in R0['sweeps']] or \
+                    [sw['coords'] for sw in res['sweeps']] != [sw['coords'] for sw in R0['sweeps']]:
+                ctx.violation('distributed PAM: rank %d and rank 0 hold different medoids after a sweep' % r, case)
+                return
+            if len(res['costs']) != 2 * iters * k or flags(res) != flags(R0):
+                ctx.violation('distributed PAM: rank %d and rank 0 took different accept/reject decisions (%s vs %s)'
+                              % (r, flags(res), flags(R0)), case)
+                return
+
+        def refines_serial(ys_per_sweep):
+            """(P2) the serial sweeps on the concatenated data, handed the global frames of the proposals the
+            ranks used, give the reassembled distributed state after every sweep; (P3) Consistent from a
+            consistent start; (P4) the global cost never increases"""
+            a, d, c = a0.copy(), d0.copy(), list(c0)
+            scosts = []
+
+            def scost(x):
+                v = float(np.sum(np.square(x)) / len(x))       # the serial definition of the cost
+                scosts.append(v)
+                return v
+            for it in range(iters):
+                c, d, a, _ = kmedoids._kmedoids_pam_update(X, metric, list(c), a, d, proposals=list(ys_per_sweep[it]),
+                                                           cost=scost)
+                ra = np.empty(N, dtype=int)
+                rd = np.empty(N)
+                for rr in range(w):
+                    # every rank holds only its slice; the serial definition of the layout puts them back
+                    ra[ids[rr]] = out.results[rr]['sweeps'][it]['assign']
+                    rd[ids[rr]] = out.results[rr]['sweeps'][it]['dist']
+                rc = [ids[p[0]][p[1]] for p in R0['sweeps'][it]['ctrs']]
+                if rc != to_int_list(c) or to_int_list(ra) != to_int_list(a) or \
+                        [float(x) for x in rd] != [float(x) for x in d]:
+                    ctx.violation('sweep %d: the distributed PAM sweep differs from the serial sweep with the same '
+                                  'proposals on the concatenated data' % it, case)
+                    return False
+                if R0['sweeps'][it]['coords'] != [float(x) for x in rc]:
+                    ctx.violation('sweep %d: the broadcast medoid frames are not the data at the medoid pairs' % it, case)
+                    return False
+                if case['start'] == 'kcenters':
+                    if not consistent(ctx, case, D, to_int_list(c), to_int_list(a), [float(x) for x in d], k,
+                                      'distributed PAM sweep %d on %d ranks' % (it, w)):
+                        return False
+            for r, res in enumerate(out.results):
+                if len(res['costs']) != len(scosts) or any(abs(x - y) > 1e-9 * max(1.0, abs(y))
+                                                           for x, y in zip(res['costs'], scosts)):
+                    ctx.violation('rank %d: the cost (striped mean of squared distances) seen by the distributed PAM '
+                                  'step differs from the serial cost on the whole data' % r, case)
+                    return False
+            cs = R0['costs']
+            hist = [cs[0]] + [min(cs[2 * j], cs[2 * j + 1]) for j in range(len(cs) // 2)]
+            if any(hist[i + 1] > hist[i] for i in range(len(hist) - 1)):
+                ctx.violation('distributed PAM raised the global cost along its history %s' % hist, case)
+                return False
+            if R0['full'] is not None:
+                for r, res in enumerate(out.results):
+                    f = res['full']
+                    if f['rc'] != to_int_list(c) or f['ra'] != to_int_list(a) or f['rd'] != [float(x) for x in d]:
+                        ctx.violation('rank %d: kmedoids() under MPI (warm start, proposals) + reassembly differs from '
+                                      'the serial sweeps' % r, case)
+                        return False
+            return True
+
+        if gprops is not None and not refines_serial([gprops] * iters):
+            return
+        # --- exact per-rank correspondence with the model, sweep by sweep
+        if 'ok' not in mi:
+            ctx.disagreement('Model.MpiPam.mpiKmedoidsIterations errs (%s) where the code succeeds' % mi, case)
+            return
+        m = mi['ok']
+        steps = m['trace']
+        if len(m['sweeps']) != iters or len(steps) != iters * k:
+            ctx.disagreement('Model.MpiPam: wrong number of sweeps / steps', case)
+            return
+        for r, res in enumerate(out.results):
+            for it, (real, mod) in enumerate(zip(res['sweeps'], m['sweeps'])):
+                what = 'rank %d sweep %d' % (r, it)
+                if real['ctrs'] != mod['ctrs']:
+                    ctx.disagreement('Model.MpiPam vs _kmedoids_pam_update, %s: medoid pairs %s vs %s'
+                                     % (what, mod['ctrs'], real['ctrs']), case)
+                    return
+                if real['coords'] != [float(c) for c in mod['coords']]:
+                    ctx.disagreement('Model.MpiPam vs _kmedoids_pam_update, %s: medoid frames' % what, case)
+                    return
+                if real['assign'] != mod['assign'][r]:
+                    ctx.disagreement('Model.MpiPam vs _kmedoids_pam_update, %s: local labels' % what, case)
+                    return
+                if [Fraction(x) for x in real['dist']] != [frac(q) for q in mod['dist'][r]]:
+                    ctx.disagreement('Model.MpiPam vs _kmedoids_pam_update, %s: local distances' % what, case)
+                    return
+            # two cost calls per step: (old, new); accept flag = new < old
+            cs = res['costs']
+            for j, st in enumerate(steps):
+                old, new = cs[2 * j], cs[2 * j + 1]
+                if (new < old) != st['acc']:
+                    ctx.disagreement('Model.MpiPam vs _kmedoids_pam_update, rank %d step %d: accept flag %s vs %s'
+                                     % (r, j, st['acc'], new < old), case)
+                    return
+                if abs(float(frac(st['old'])) - old) > 1e-9 * max(1.0, abs(old)) or \
+                        abs(float(frac(st['new'])) - new) > 1e-9 * max(1.0, abs(new)):
+                    ctx.disagreement('Model.MpiPam vs _kmedoids_pam_update, rank %d step %d: global cost' % (r, j), case)
+                    return
+        if lprops is not None and [st['p'] for st in steps] != lprops * iters:
+            ctx.disagreement('Model.MpiPam: trace proposals differ from the given proposals', case)
+            return
+        ys = [[st['y'] for st in steps[it * k:(it + 1) * k]] for it in range(iters)]
+        if gprops is not None and ys != [gprops] * iters:
+            ctx.disagreement('Model.MpiPam: broadcast proposal frames %s differ from the global frames %s of the '
+                             'given proposals' % (ys, gprops), case)
+            return
+        if any(st['acc'] for st in steps):
+            ctx.tag('pam-model-accepted')
+        if any(not st['acc'] for st in steps):
+            ctx.tag('pam-model-rejected')
+        if any(st['p'][0] != 0 for st in steps):
+            ctx.tag('pam-model-proposal-off-rank-0')
+        if pm == 'random':
+            ctx.tag('pam-model-randind-draws=%d' % min(len(base['orc']), 12))
+            if m['oracle']:
+                ctx.disagreement('Model.MpiPam: recorded draws left over (%s)' % m['oracle'], case)
+                return
+            # the proposals the ranks drew are known through the model only (it agrees with every rank's state)
+            if not refines_serial(ys):
+                return
+        # --- kmedoids() itself (warm start through ctr_ids_mpi) against the model's kmedoids entry
+        if R0['full'] is not None:
+            if 'ok' not in mk:
+                ctx.disagreement('Model.MpiPam.mpiKmedoids errs (%s) where kmedoids() succeeds' % mk, case)
+                return
+            fin, rea = mk['ok']['final'], mk['ok']['reassembled']
+            if 'ok' not in rea:
+                ctx.disagreement('Model.MpiPam.reassemble errs (%s) where the library reassembles' % rea, case)
+                return
+            for r, res in enumerate(out.results):
+                f = res['full']
+                if f['ctrs'] != fin['ctrs'] or f['assign'] != fin['assign'][r] or \
+                        [Fraction(x) for x in f['dist']] != [frac(q) for q in fin['dist'][r]] or \
+                        f['coords'] != [float(c) for c in fin['coords']]:
+                    ctx.disagreement('Model.MpiPam.mpiKmedoids vs kmedoids() on rank %d' % r, case)
+                    return
+                if f['rc'] != rea['ok']['ctrs'] or f['ra'] != rea['ok']['assign'] or \
+                        [Fraction(x) for x in f['rd']] != [frac(q) for q in rea['ok']['dist']]:
+                    ctx.disagreement('Model.MpiPam.reassemble vs assemble_striped_ragged_array / '
+                                     'convert_local_indices on rank %d' % r, case)
+                    return
+    return reqs, finish
 
 
 def prep_cold(ctx, case):
@@ -1204,7 +1516,8 @@ def stripe_scope(ctx):
 
 # ----------------------------------------------------------------------------- driver glue
 
-PREP = {'kcenters': prep_kcenters, 'hybrid': prep_hybrid, 'pam': prep_pam, 'kmedoids-cold': prep_cold,
+PREP = {'kcenters': prep_kcenters, 'hybrid': prep_hybrid, 'pam': prep_pam, 'pam-model': prep_pam_model,
+        'kmedoids-cold': prep_cold,
         'assemble-array': prep_assemble_array, 'assemble-ragged': prep_assemble_ragged,
         'convert': prep_convert, 'maxmean': prep_maxmean, 'randind': prep_randind,
         'distribute': prep_distribute, 'load': prep_load, 'load-oldstyle': prep_load_oldstyle}
@@ -1232,6 +1545,14 @@ FIXED = [
      'props': 'member', 'jit': 10, 'mode': 'fixed'},
     {'kind': 'pam', 'w': 2, 'L': [3, 3, 3, 3], 'dseed': 9, 'k': 3, 'iters': 2, 'pseed': 2, 'form': 'flat',
      'props': 'member', 'jit': 11, 'mode': 'fixed'},
+    # distributed PAM against Model/MpiPam.lean: explicit proposals on a layout where rank 0 owns two
+    # trajectories; randind proposals; one rank per trajectory
+    {'kind': 'pam-model', 'w': 3, 'L': [3, 2, 4, 2], 'dseed': 8, 'k': 3, 'iters': 2, 'pseed': 1, 'form': 'pairs',
+     'start': 'kcenters', 'props': 'member', 'jit': 15, 'mode': 'fixed'},
+    {'kind': 'pam-model', 'w': 2, 'L': [3, 3, 3, 3], 'dseed': 9, 'k': 3, 'iters': 2, 'pseed': 2, 'form': 'flat',
+     'start': 'kcenters', 'props': 'random', 'jit': 16, 'mode': 'fixed'},
+    {'kind': 'pam-model', 'w': 4, 'L': [2, 1, 3, 2], 'dseed': 10, 'k': 4, 'iters': 1, 'pseed': 3, 'form': 'pairs',
+     'start': 'arbitrary', 'props': 'any', 'jit': 17, 'mode': 'fixed'},
     {'kind': 'maxmean', 'locals': [[-1.0], [-5.0]], 'jit': 12},
     {'kind': 'load', 'w': 2, 'L': [3, 5, 2], 'dim': 2, 'stride': 2, 'fmt': 'h5', 'jit': 13},
     {'kind': 'load', 'w': 2, 'L': [3, 5, 2], 'dim': 2, 'stride': 2, 'fmt': 'npy', 'jit': 14},
@@ -1262,6 +1583,7 @@ def run(ctx):
     cases += [gen_kcenters(rng) for _ in range(ctx.n(110, 1500))]
     cases += [gen_hybrid(rng) for _ in range(ctx.n(25, 300))]
     cases += [gen_pam(rng) for _ in range(ctx.n(25, 300))]
+    cases += [gen_pam_model(rng) for _ in range(ctx.n(40, 500))]
     cases += [gen_assemble_array(rng) for _ in range(ctx.n(60, 600))]
     cases += [gen_assemble_ragged(rng) for _ in range(ctx.n(80, 800))]
     cases += [gen_convert(rng) for _ in range(ctx.n(40, 400))]
